@@ -14,15 +14,6 @@ Proof. intros Ht Hp. unfold rel_stm. expose_stm. interval with (i_taylor t, i_bi
 Lemma S41 t p : 500 <= t <= 550 -> 100000 <= p <= 1000000 -> rel_stm t p <= 1 / 100.
 Proof. intros Ht Hp. unfold rel_stm. expose_stm. interval with (i_taylor t, i_bisect p, i_depth 14, i_degree 5). Qed.
 
-Lemma S0 t p : 100 <= t <= 150 -> 12500 <= p <= 25000 -> rel_stm t p <= 1 / 100.
-Proof. intros Ht Hp. unfold rel_stm. expose_stm. interval with (i_bisect t, i_bisect p, i_depth 14). Qed.
-
-Lemma S18 t p : 300 <= t <= 350 -> 12500 <= p <= 25000 -> rel_stm t p <= 1 / 100.
-Proof. intros Ht Hp. unfold rel_stm. expose_stm. interval with (i_bisect t, i_bisect p, i_depth 14). Qed.
-
-Lemma S38 t p : 500 <= t <= 550 -> 12500 <= p <= 25000 -> rel_stm t p <= 1 / 100.
-Proof. intros Ht Hp. unfold rel_stm. expose_stm. interval with (i_bisect t, i_bisect p, i_depth 14). Qed.
-
 Lemma S58 t p : 650 <= t <= 700 -> 10000000 <= p <= 20000000 -> rel_stm t p <= 1 / 100.
 Proof. intros Ht Hp. unfold rel_stm. expose_stm. interval with (i_bisect t, i_bisect p, i_depth 14). Qed.
 
